@@ -894,7 +894,9 @@ impl Sim {
                         Err("parent has no classes".into())
                     } else {
                         let in_parent = rcns[*rcn as usize % rcns.len()].clone();
-                        let for_child = format!("m{}", name % 3);
+                        // (one name per parent class: two classes of one parent under the
+                        // same child-facing name would be a configuration error)
+                        let for_child = format!("m{}-{}", name % 3, in_parent);
                         let mapping: ResourceClassNameMapping = serde_json::from_value(
                             serde_json::json!({"name_in_parent": in_parent, "name_for_child": for_child}),
                         )
